@@ -509,6 +509,19 @@ func runReplay(rec *proto.Record, build string, free bool, searchN, searchOff in
 		out.Violations = viol
 		out.Class = viol[0].Class
 		out.Note = fmt.Sprintf("violation in run %d of %d", where, len(rec.Prefix)+1)
+		if where >= 0 && where < len(rec.Prefix) {
+			// an earlier run of the history shows a violation by itself (the history was
+			// cut down and that run now meets another state): it becomes the run of the
+			// record, with the schedule just executed, and what followed it is dropped
+			run := rec.Prefix[where]
+			if !free {
+				run.Events = toProtoEvents(last.sim.Events, -1)
+				run.Scripted = !last.sim.Truncated
+			}
+			out.Run = run
+			out.Prefix = append([]proto.RunRec{}, rec.Prefix[:where]...)
+			out.Note = fmt.Sprintf("violation in run %d of %d (an earlier run of the recorded history: promoted to the run of this record)", where, len(rec.Prefix)+1)
+		}
 		res.Record = &out
 	}
 	res.WallMs = time.Since(t0).Milliseconds()
